@@ -19,13 +19,14 @@ class Feat:
         self.fid, self.owner, self.name, self.ref, self.many = fid, owner, name, ref, many
         self.ordered, self.unique, self.cont, self.typ, self.opp = ordered, unique, cont, typ, opp
         self.transient = transient      # not persisted; behaves like any other feature in memory
+        self.volatile = False           # "no storage of its own" in EMF; pyecore stores it like any other feature
 
     def line(self):
         b = lambda x: 1 if x else 0
         t = f'cls:{self.typ[1]}' if self.typ[0] == 'cls' else f'dt:{self.typ[1]}'
         return (f'mm feat {self.fid} owner={self.owner} ref={b(self.ref)} many={b(self.many)} '
                 f'ordered={b(self.ordered)} unique={b(self.unique)} cont={b(self.cont)} type={t} '
-                f'opp={self.opp if self.opp is not None else "-"}')
+                f'opp={self.opp if self.opp is not None else "-"}' + (' volatile=1' if self.volatile else ''))
 
     def shape(self):
         return ('ref' if self.ref else 'attr', 'many' if self.many else 'single',
@@ -109,8 +110,9 @@ def gen_mm(rng, profile='mixed'):
     # plain references without opposite (many ones may be non-unique: EList/EBag)
     for _ in range(rng.choice([0, 1, 2])):
         many = rng.random() < .6
-        mm.add_feat(owner=cls(), name='', ref=True, many=many, ordered=rng.random() < .8,
-                    unique=(rng.random() < .6) if many else True, cont=False, typ=('cls', cls()))
+        pf = mm.add_feat(owner=cls(), name='', ref=True, many=many, ordered=rng.random() < .8,
+                         unique=(rng.random() < .6) if many else True, cont=False, typ=('cls', cls()))
+        pf.volatile = rng.random() < .25
     for _ in range(rng.choice([0, 1, 2])):
         many = rng.random() < .5
         mm.add_feat(owner=cls(), name='', ref=False, many=many, ordered=rng.random() < .8,
@@ -143,7 +145,8 @@ def build_mm(mm):
     for f in mm.feats:
         if f.ref:
             ef = E.EReference(f.name, classes[f.typ[1]], upper=-1 if f.many else 1, ordered=f.ordered,
-                              unique=f.unique, containment=f.cont, transient=getattr(f, 'transient', False))
+                              unique=f.unique, containment=f.cont, transient=getattr(f, 'transient', False),
+                              volatile=getattr(f, 'volatile', False))
         else:
             ef = E.EAttribute(f.name, getattr(E, f.typ[1]), upper=-1 if f.many else 1, ordered=f.ordered,
                               unique=f.unique)
@@ -354,6 +357,9 @@ class World:
             c.append(self.val(a[2])); return None
         if op == 'insert':
             c.insert(int(a[2]), self.val(a[3])); return None
+        if op == 'insertbad':
+            # a position that is no integer: refused (TypeError) before the other end or the container is touched
+            c.insert({'none': None, 'str': '0', 'float': 1.5}[a[2]], self.val(a[3])); return None
         if op == 'remove':
             c.remove(self.val(a[2])); return None
         if op == 'pop':
@@ -516,6 +522,8 @@ class Gen:
                 v = self.value_for(f, x)
                 if v is None or v[0] == 'n':
                     continue
+                if rng.random() < .06:
+                    return f"insertbad {x} {f.fid} {rng.choice(['none', 'str', 'float'])} {v[0]}"
                 return f'add {x} {f.fid} {v[0]}' if rng.random() < .6 else f'insert {x} {f.fid} {idx} {v[0]}'
             if j < .45:
                 if cur and rng.random() < .8:
